@@ -87,6 +87,86 @@ Example canrun_sound_example :
     snd (ugm_can_run_app (ugm_increase s2 [0; 1] 2 (Some [(0, 1%Z)]) ex_user) [0; 1] 3 ex_user) = false /\ s3 = s2.
 Proof. eexists. eexists. eexists. repeat split; vm_compute; reflexivity. Qed.
 
+(* ---- a decidable form of the pairing discipline ---- *)
+Lemma path_eqb_eq a b : path_eqb a b = true -> a = b.
+Proof.
+  revert b. induction a as [|x t IH]; intros [|y t'] H; try discriminate; [reflexivity|].
+  cbn in H. apply andb_true_iff in H. destruct H as (H1 & H2). apply N.eqb_eq in H1. rewrite H1, (IH t' H2). reflexivity.
+Qed.
+Definition all_keys_of (L : ledger) : list tid := flat_map (fun e => keys (le_res e)) L.
+Lemma getz_not_key r k : ~ In k (keys r) -> getz r k = 0%Z.
+Proof. intros H. unfold getz. destruct (get r k) eqn:E; [|reflexivity]. exfalso. apply H. apply get_some_iff. eauto. Qed.
+Lemma asum_not_key sel a L k : ~ In k (all_keys_of L) -> asum sel a L k = 0%Z.
+Proof.
+  induction L as [|e t IH]; intros H; [reflexivity|]. unfold asum in *. cbn [fold_right].
+  cbn [all_keys_of flat_map] in H. rewrite in_app_iff in H.
+  rewrite IH by tauto. rewrite getz_not_key by tauto. destruct (sel e && (le_app e =? a)); reflexivity.
+Qed.
+Definition owner_okb (L : ledger) (a : app) (u : uname) (p : path) : bool :=
+  forallb (fun e => implb (le_app e =? a) ((le_user e =? u) && path_eqb (le_path e) p)) L.
+Lemma owner_okb_spec L a u p : owner_okb L a u p = true -> forall e, In e L -> le_app e = a -> le_user e = u /\ le_path e = p.
+Proof.
+  unfold owner_okb. rewrite forallb_forall. intros H e Hin Ha. specialize (H e Hin). rewrite Ha, N.eqb_refl in H. cbn in H.
+  apply andb_true_iff in H. destruct H as (H1 & H2). split; [apply N.eqb_eq; assumption|apply path_eqb_eq; assumption].
+Qed.
+Definition rootedb (p : path) : bool := match p with x :: _ => x =? ROOT | [] => false end.
+Lemma rootedb_spec p : rootedb p = true -> exists tl, p = ROOT :: tl.
+Proof. destruct p as [|x t]; [discriminate|]. cbn. intros H. apply N.eqb_eq in H. subst. eauto. Qed.
+
+Definition hist_okb (L : ledger) (o : op) : bool :=
+  match o with
+  | OInc p a (Some r) u _ =>
+      rootedb p && negb (a =? EMPTY) && negb (fst u =? EMPTY) && wfb r && rangeb r && owner_okb L a (fst u) p
+  | ODec p a (Some r) u rm =>
+      rootedb p && negb (a =? EMPTY) && negb (fst u =? EMPTY) && wfb r && rangeb r &&
+      existsb (fun e => le_app e =? a) L && owner_okb L a (fst u) p &&
+      (if rm then forallb (fun k => Z.eqb (getz r k) (asum (fun _ => true) a L k)) (keys r ++ all_keys_of L)
+       else rangeb (neg_res r))
+  | OHeadroom p _ _ | OCanRun p _ _ => match p with [] => false | _ => true end
+  | _ => false
+  end.
+Lemma hist_okb_spec L o : hist_okb L o = true ->
+  hist_ok L o /\ (forall p a r u, o = ODec p a (Some r) u false -> res_in_range (neg_res r)).
+Proof.
+  destruct o as [p a [r|] u sched|p a [r|] u rm|p a u|p a u|c rn]; cbn [hist_okb hist_ok]; try discriminate.
+  - intros H. repeat (apply andb_true_iff in H; destruct H as [H ?]). split; [|intros; discriminate].
+    repeat split.
+    + apply rootedb_spec. assumption.
+    + apply N.eqb_neq. apply negb_true_iff. assumption.
+    + apply N.eqb_neq. apply negb_true_iff. assumption.
+    + apply wfb_wf. assumption.
+    + apply rangeb_range. assumption.
+    + apply owner_okb_spec; assumption.
+    + apply owner_okb_spec; assumption.
+  - intros H. repeat (apply andb_true_iff in H; destruct H as [H ?]). split.
+    + repeat split.
+      * apply rootedb_spec. assumption.
+      * apply N.eqb_neq. apply negb_true_iff. assumption.
+      * apply N.eqb_neq. apply negb_true_iff. assumption.
+      * apply wfb_wf. assumption.
+      * apply rangeb_range. assumption.
+      * apply existsb_exists in H2. destruct H2 as (e & Hin & He). exists e. split; [assumption|apply N.eqb_eq; assumption].
+      * apply owner_okb_spec; assumption.
+      * apply owner_okb_spec; assumption.
+      * intros -> k. rewrite forallb_forall in H0.
+        destruct (in_dec N.eq_dec k (keys r ++ all_keys_of L)) as [Hin|Hni]; [apply Z.eqb_eq; apply H0; assumption|].
+        rewrite in_app_iff in Hni. rewrite getz_not_key, asum_not_key by tauto. reflexivity.
+    + intros p0 a0 r0 u0 E. injection E as <- <- <- <- <-. apply rangeb_range. assumption.
+  - intros H. split; [|intros; discriminate]. destruct p as [|x t]; [discriminate|]. eauto.
+  - intros H. split; [|intros; discriminate]. destruct p as [|x t]; [discriminate|]. eauto.
+Qed.
+Fixpoint hist_all_okb (L : ledger) (ops : list op) : bool :=
+  match ops with
+  | [] => true
+  | o :: t => hist_okb L o && (tot (ledger_step L o) <=? MAX)%Z && hist_all_okb (ledger_step L o) t
+  end.
+Lemma hist_all_okb_spec ops : forall L, hist_all_okb L ops = true -> hist_all_ok L ops.
+Proof.
+  induction ops as [|o t IH]; intros L H; [exact I|]. cbn [hist_all_okb] in H.
+  repeat (apply andb_true_iff in H; destruct H as [H ?]). destruct (hist_okb_spec L o H) as (H3 & H4).
+  cbn [hist_all_ok]. repeat split; [assumption|apply bounded_tot; assumption|assumption|apply IH; assumption].
+Qed.
+
 (* usage_is_sum: the loaded configuration is a valid starting state, and a history with two
    applications, a partial release and a full release satisfies the pairing discipline *)
 Definition ex_ops : list op :=
@@ -97,27 +177,13 @@ Definition ex_ops : list op :=
    ODec [0; 1] 1 (Some [(0, 3%Z)]) ex_user false;
    ODec [0; 1] 1 (Some [(0, 1%Z)]) ex_user true].
 
-Ltac solve_entries :=
-  intros e Hin; repeat (destruct Hin as [<-|Hin]; [cbn; intros; try (split; reflexivity); try discriminate; try congruence|]); try contradiction.
-
 Example usage_is_sum_example :
   Inv ex_s0 [] /\ hist_all_ok [] ex_ops /\ exists s, run ex_s0 ex_ops = Some s /\ ledger_of ex_ops <> [] /\
   tracked s (Group 2) [0; 1] 0 = 2%Z /\ tracked s (User 3) [0] 1 = 1%Z.
 Proof.
   split; [apply (inv0b_Inv ex_s0 [[1]; []]); vm_compute; reflexivity|].
-  split.
-  - cbn [hist_all_ok ex_ops ledger_step fst ex_user].
-    repeat split; try (eexists; eexists; reflexivity); try (eexists; reflexivity); try discriminate;
-      try (apply wfb_wf; reflexivity); try (apply rangeb_range; reflexivity);
-      try (apply bounded_tot; vm_compute; reflexivity);
-      try (intros p a r u H; discriminate H);
-      try solve_entries.
-    + intros p a r u H. injection H as <- <- <- <-. apply rangeb_range. reflexivity.
-    + exists (mkLE 1 2 [0; 1] [(0, 1%Z)]). split; [left; reflexivity|reflexivity].
-    + intros _ k. vm_compute. destruct k as [|[p|p|]]; reflexivity.
-    + exists (mkLE 1 2 [0; 1] [(0, 1%Z)]). split; [right; left; reflexivity|reflexivity].
-    + intros H. discriminate H.
-  - eexists. split; [vm_compute; reflexivity|]. split; [vm_compute; discriminate|]. split; vm_compute; reflexivity.
+  split; [apply hist_all_okb_spec; vm_compute; reflexivity|].
+  eexists. split; [vm_compute; reflexivity|]. split; [vm_compute; discriminate|]. split; vm_compute; reflexivity.
 Qed.
 
 (* group_stable: app1 of u1 is running and charged to g1; an Increase of another application
